@@ -212,6 +212,38 @@ func expiryVsHeartbeat() func(s *vsched.Sched) {
 	}
 }
 
+// E: heartbeats that arrive right after the session was created must not wedge it.
+func earlyHeartbeats() func(s *vsched.Sched) {
+	return func(s *vsched.Sched) {
+		e := setup(s)
+		if e == nil {
+			return
+		}
+		s.Explore(true)
+		sid := e.session(2000)
+		done := 0
+		for i := 0; i < 2; i++ {
+			vsched.Go(func() {
+				if err := e.lc.KeepAlive(sid); err == nil {
+					done++
+				}
+			})
+		}
+		s.Settle()
+		s.Explore(false)
+		if done != 2 {
+			s.Fail("heartbeat-wedged", fmt.Sprintf("%d of 2 heartbeats sent right after the session was created never returned; blocked: %v", 2-done, s.Blocked()))
+			return
+		}
+		s.Sleep(3 * time.Second)
+		s.Settle()
+		if r := e.residue(sid); len(r) > 0 {
+			s.Fail("session-never-expired", fmt.Sprintf("no heartbeat for more than the timeout but session %d is still there: %v", sid, r))
+		}
+		_ = e.lc.Close()
+	}
+}
+
 // D: sessions and their records survive a re-election on the same node, with a fresh timeout.
 func reelection() func(s *vsched.Sched) {
 	return func(s *vsched.Sched) {
@@ -265,6 +297,7 @@ func scenarios(tier string) []sched.Scenario {
 		{Name: "close-vs-own-ephemeral-put", Cfg: cfg, MaxDev: d, Body: closeVsOwnPut()},
 		{Name: "expiry-vs-heartbeat", Cfg: race, MaxDev: 2, Body: expiryVsHeartbeat()},
 		{Name: "reelection", Cfg: cfg, MaxDev: 1, Body: reelection()},
+		{Name: "early-heartbeats", Cfg: cfg, MaxDev: 2, Body: earlyHeartbeats()},
 	}
 	if tier == "thorough" {
 		out[0].MaxDev, out[2].MaxDev, out[3].MaxDev, out[4].MaxDev = 3, 3, 3, 2
